@@ -16,7 +16,8 @@ extern int mpt_linepart_code(double val)
 	double	small;
 	if (val < 0 || val > 1) return -2;
 	small = val * (UINT16_MAX + 1);
-	if (val && !small) return 1;
+	/* non-zero fraction needs non-zero code */
+	if (val && small < 1) return 1;
 	return (small > UINT16_MAX) ? UINT16_MAX : small;
 }
 /*!
